@@ -38,6 +38,12 @@ Refuting events (each with its own mechanism-level signature):
 
   ownership O1    a value listed in the inputs/outputs/initializers of graph S whose producer belongs to a
                   graph belongs to S (clause of the walker event: ``walker:O1|kinds``)
+  annotation S1   a sharding spec of a node device configuration whose tensor name is the name of an input/output
+                  of its node is bound (``spec.value``, by identity) to that very operand object, not to another
+                  Value of the same name such as the value of an enclosing scope that the subgraph shadows
+                  (clause of the walker event: ``walker:S1|kinds``).  The ``shadow_scope`` mutation makes the deciding
+                  situation frequent: a subgraph re-declares an outer name consistently (definition + all references)
+                  and a node touching it carries a sharding annotation on it, IR version >= 11.
   state leak      7% of the cases are SEQUENCES of 2-5 from_proto calls in one fresh child over variants of one
                   base model (model / its graph / a function; roles: rejected late, dangling names, random), so
                   the protos share value names.  Each step is also judged alone in a pristine grandchild; an
@@ -90,12 +96,13 @@ RULE = (
     "a case is one valid proto (generated by gen_proto: ModelProto 46% / GraphProto / FunctionProto / NodeProto / "
     "TensorProto / AttributeProto / ValueInfoProto / TypeProto, IR version 3..13, features toggled independently, some "
     "forced; or - 8% - a model of the ONNX backend corpus) with canary tokens in every external-data location, "
-    "then 1-8 mutations (3% of the cases: none, as a control) drawn from 41 kinds (7% of the cases are instead a sequence "
+    "then 1-8 mutations (3% of the cases: none, as a control) drawn from 42 kinds (7% of the cases are instead a sequence "
     "of 2-5 from_proto calls in one process over differently mutated views of one base model, each step also judged alone "
     "in a pristine process): dangling/duplicated/empty names, "
     "missing types, shuffled/cyclic/self-consuming nodes, unknown enum integers, payload/type mismatches, invalid "
     "UTF-8, dims vs data, several storage fields, absurd external_data, redeclared outputs, initializers named like "
-    "inputs/node outputs, subgraph names shadowing outer names, deep nesting, recursive functions, reference "
+    "inputs/node outputs, subgraph names shadowing outer names (also consistently: definition and every reference renamed "
+    "to an enclosing scope's name, with a sharding annotation on the shadowed operand), deep nesting, recursive functions, reference "
     "attributes outside functions, unknown device configurations, unsupported constructs, generic reflection "
     "edits, byte flips/insertions/deletions/duplications/appended fields of the serialised form that protobuf "
     "still parses.  non-trivial = >= 1 mutation applied (so the result was accepted by protobuf) and "
@@ -108,6 +115,9 @@ ASSUMPTIONS = [
     "the C01 walker (vfpy.invariants, public accessors only) defines 'use-def and ownership links are consistent'; "
     "I6 (a graph input/initializer with a producing node) is part of it; X1 (ownership closure: no consumer/producer "
     "node reachable from a freshly deserialised Model/Graph/Function lives outside its graph tree) is judged as well",
+    "S1: 'links are consistent' includes the identity links of device annotations on the freshly deserialised IR (ShardingSpec.value "
+    "'must be an input or output of the node that owns this spec'): judged only when the node has an operand of the spec's name; "
+    "a spec naming no operand of its node is report-only",
     "the C02 canonical form (vfpy.canon_proto: reflection over every field, documented normalisations only) defines "
     "'serializes to itself'; a change of order only in external_data / quantization lists is report-only",
     "file access is what CPython audit events (open, mmap, listdir, scandir, ...) and wrappers on os.stat/lstat/"
@@ -159,6 +169,8 @@ def plan(tier: str) -> dict:
         "fs_windows": 1500 if quick else 50000,
         "corpus_cases": 25 if quick else 1000,
         "byte_level_cases": 60 if quick else 2500,
+        "sharding_specs_bound_to_operand": 150 if quick else 5000,
+        "sharding_specs_on_shadowed_operand": 12 if quick else 300,
         "seq_cases": 40 if quick else 1500,
         "seq_steps_judged": 120 if quick else 4500,
         "seq_references_compared": 100 if quick else 4000,
@@ -560,6 +572,52 @@ def _ownership_problems(w: World) -> list[tuple[str, str]]:
     return out
 
 
+def _annotation_problems(w: World, count=None) -> list[tuple[str, str]]:
+    """S1 (device annotations of a freshly deserialised IR are links to the node's own operands): a sharding
+    spec of a node refers to its tensor by object identity and "must be an input or output of the node that
+    owns this spec" (ShardingSpec.value).  When the node has an operand of the spec's name, the spec's value IS
+    one of the node's input/output objects - not another Value that merely carries the same name (e.g. the value
+    of an enclosing scope that the subgraph shadows).  A spec whose name is no operand of its node (the proto
+    named something else; the deserializer invents a placeholder) is report-only."""
+    count = count or _Null()
+    out = []
+    for n in w.nodes:
+        if id(n) in w.broken:
+            continue  # a half-constructed node: the walker reports it
+        try:
+            configs = tuple(getattr(n, "device_configurations", ()) or ())
+            operands = [v for v in (*n.inputs, *n.outputs) if v is not None]
+        except Exception:  # noqa: BLE001
+            continue
+        if not configs:
+            continue
+        for cfg in configs:
+            for spec in getattr(cfg, "sharding_specs", ()) or ():
+                v = getattr(spec, "value", None)
+                if v is None:
+                    count("sharding_specs_without_tensor", 1)
+                    continue
+                if any(o is v for o in operands):
+                    count("sharding_specs_bound_to_operand", 1)
+                    continue
+                same = [o for o in operands if v.name and o.name == v.name]
+                if not same:
+                    count("report_only_sharding_spec_names_no_operand", 1)
+                    continue
+                count("sharding_specs_bound_elsewhere", 1)
+                if len(out) < 5:
+                    o = same[0]
+                    role = "input" if any(o is i for i in n.inputs) else "output"
+                    vg, og = v.graph, o.graph
+                    out.append(("S1", f"a sharding spec of {w.label(n)} ({n.op_type}, in {w.label(n.graph) if n.graph is not None else 'no graph'}) "
+                                      f"names {v.name!r}, which is the node's {role} {w.label(o)} (owned by "
+                                      f"{w.label(og) if og is not None else 'no graph'}), but spec.value is another Value object of that "
+                                      f"name, {w.label(v) if id(v) in w._labels else 'outside the result'} (owned by "
+                                      f"{w.label(vg) if vg is not None and id(vg) in w._labels else ('no graph' if vg is None else 'a graph outside the result')}); "
+                                      f"node.sharding_of(operand) finds nothing"))
+    return out
+
+
 def _tensors_of(obj, w: World | None) -> list:
     out: list = []
     if _is_tensor(obj):
@@ -699,10 +757,12 @@ def judge(proto, kind: str, count=None, on_phase=None, tag: str = "", want_hash:
     on_phase("walker")
     with _deep():
         w = _world_of(obj)
-        problems = invariants.check_world(w) + _closure_problems(obj, w) + _ownership_problems(w) if w is not None else []
+        problems = (invariants.check_world(w) + _closure_problems(obj, w) + _ownership_problems(w)
+                    + _annotation_problems(w, count)) if w is not None else []
     if w is not None:
         count("walker_runs", 1)
         count("walker_objects", len(w._labels))
+        count("sharding_specs_on_shadowed_operand", mp.shadowed_sharding_specs(proto))
     if problems:
         events.append(_walker_event("walker", problems, proto, "returned IR violates "))
     tensors = _tensors_of(obj, w)
@@ -768,7 +828,8 @@ def judge(proto, kind: str, count=None, on_phase=None, tag: str = "", want_hash:
     on_phase("walker")
     with _deep():
         w2 = _world_of(obj2)
-        problems2 = (invariants.check_world(w2) + _closure_problems(obj2, w2) + _ownership_problems(w2)) if w2 is not None else []
+        problems2 = (invariants.check_world(w2) + _closure_problems(obj2, w2) + _ownership_problems(w2)
+                     + _annotation_problems(w2)) if w2 is not None else []
     if w2 is not None:
         count("walker_runs", 1)
     if problems2:
